@@ -634,7 +634,7 @@ func (p *pipe) _backgroundRead() (err error) {
 			if multi == nil {
 				multi = ones
 			}
-		} else if ff > 0 && cmds.IsStaticTTL(multi[ff]) {
+		} else if ff > 0 && p.cache != nil && cmds.IsStaticTTL(multi[ff]) {
 			// ToStaticTTL path: msg is the cacheable reply directly (no
 			// EXEC unwrap). Must be checked before the standard CSC
 			// gate below — an array reply of length >= 2 on that gate's
